@@ -76,8 +76,10 @@ def lockOK (facts : List LockFact) : Bool :=
     else if exported then
       (if writesT facts f then lock == "excl" else if f.2.2.2.1 then lock == "excl" || lock == "shared" else true)
     else
-      -- unexported helper: every caller holds the exclusive lock
-      lock == "excl" || facts.all fun g => !(g.2.2.2.2.contains name) || g.2.1 == "excl" || g.1 == name
+      -- unexported helper: it touches no shared state at all (e.g. a wrapper around the mutex itself), or
+      -- every caller holds the exclusive lock
+      (!f.2.2.1 && !f.2.2.2.1) || lock == "excl" ||
+        facts.all fun g => !(g.2.2.2.2.contains name) || g.2.1 == "excl" || g.1 == name
 
 /-! ### package-level state -/
 
